@@ -1,10 +1,11 @@
 #!/bin/bash
 # run the thorough tier of the given properties sequentially (no evidence written); summary lines to stdout
 cd "$(dirname "$0")/.."
+out=${VERIF_LOGDIR:-/tmp}
 for id in "$@"; do
   s=$(date +%s)
-  ./check $id --tier thorough --no-evidence --no-playback > /tmp/thorough_$id.log 2>&1
+  ./check $id --tier thorough --no-evidence --no-playback --jobs ${VERIF_JOBS:-8} > $out/thorough_$id.log 2>&1
   rc=$?
-  echo "$id rc=$rc $(( $(date +%s) - s ))s; $(grep -c NOT-FINISHED /tmp/thorough_$id.log) not finished; $(tail -1 /tmp/thorough_$id.log | cut -c1-150)"
-  grep -E "NOT-FINISHED|UNDECIDED|VIOLATION" /tmp/thorough_$id.log | cut -c1-160
+  echo "$id rc=$rc $(( $(date +%s) - s ))s; $(grep -c NOT-FINISHED $out/thorough_$id.log) not finished; $(tail -1 $out/thorough_$id.log | cut -c1-150)"
+  grep -E "NOT-FINISHED|UNDECIDED|VIOLATION|watchdog" $out/thorough_$id.log | cut -c1-200
 done
